@@ -488,9 +488,9 @@ func FuzzPipeline(f *testing.F) {
 }
 
 func TestC08(t *testing.T) {
-	V.Rule("unit: sequences of 1-6 inputs (a fresh proxy every 40 sequences) pushed through the synchronous pipeline decode -> learn -> stamp -> register -> consume Route -> pin -> route -> relay (UDP-like and TCP-like arrival, requests and responses): structurally valid generated messages with 1-3 hostile fields (absurd / negative / non-numeric Content-Length, bracket-only / empty / huge Via hosts, hostile Route / From / To / CSeq / start lines, missing mandatory or duplicated singleton headers, every decoded number (Content-Length, CSeq, Expires, Max-Forwards, status, URI / Via / Route ports, rport) at every integer width boundary 2^k-2..2^k+1 for k in 7..64 in both signs - enumerated completely -, thousands of headers / Via entries / parameters, hostile tags, odd Expires), truncations and random byte strings; oracle: no panic, returns within 15 s, TotalAlloc growth per input <= 512*len + 1 MiB (decoding is allowed a large constant factor, not an allocation that ignores how many bytes arrived). lab: the same inputs plus random and oversized bytes against real UDP and TCP listeners; after every batch a sentinel request must still be relayed, and so must 2-6 small ordinary requests sent back to back (each once, intact), a TCP connection that carried undecodable bytes must have been closed, so must one whose peer stops in the middle of a message (any cut after the first byte) and shuts its sending side down, new connections must be served. The native coverage-guided target FuzzPipeline runs in the thorough tier. non-trivial = input that decodes (reaches routing) and contains >= 1 hostile field; distinct by input bytes")
+	V.Rule("unit: sequences of 1-6 inputs (a fresh proxy every 40 sequences) pushed through the synchronous pipeline decode -> learn -> stamp -> register -> consume Route -> pin -> route -> relay (UDP-like and TCP-like arrival, requests and responses): structurally valid generated messages with 1-3 hostile fields (absurd / negative / non-numeric Content-Length, bracket-only / empty / huge Via hosts, hostile Route / From / To / CSeq / start lines, missing mandatory or duplicated singleton headers, every decoded number (Content-Length, CSeq, Expires, Max-Forwards, status, URI / Via / Route ports, rport) at every integer width boundary 2^k-2..2^k+1 for k in 7..64 in both signs - enumerated completely -, thousands of headers / Via entries / parameters, hostile tags, odd Expires), truncations and random byte strings; oracle: no panic, returns within 15 s, TotalAlloc growth per input <= 512*len + 1 MiB (decoding is allowed a large constant factor, not an allocation that ignores how many bytes arrived). lab: the same inputs plus random and oversized bytes against real UDP and TCP listeners; after every batch a sentinel request must still be relayed, and so must 2-6 small ordinary requests sent back to back (each once, intact), a TCP connection that carried undecodable bytes must have been closed, so must one whose peer stops in the middle of a message (any cut after the first byte) and shuts its sending side down, new connections must be served. bin: the real binary, RSS bounded, and - under a descriptor limit of 160 - still serving after 450 (thorough: 3000) TCP peers that connect, say nothing / one complete request / half of one, and close. The native coverage-guided target FuzzPipeline runs in the thorough tier. non-trivial = input that decodes (reaches routing) and contains >= 1 hostile field; distinct by input bytes")
 	V.Assume("egress hygiene: when the product itself computes a non-UDP next hop outside 127/8 for an input, the harness does not let that input reach the relay step (counted as neutralised); UDP sends cannot block")
-	V.Require("bin: process alive and RSS bounded after hostile batch", "decoded with hostile field", "rejected by the decoder", "tcp-like arrival", "udp-like arrival", "response", "lab: sentinel relayed after hostile batch", "lab: back-to-back ordinary requests all relayed after hostile batch", "lab: garbage TCP connection closed", "lab: connection ending in the middle of a message closed")
+	V.Require("bin: listener serves after hundreds of short-lived TCP peers under a descriptor limit", "bin: process alive and RSS bounded after hostile batch", "decoded with hostile field", "rejected by the decoder", "tcp-like arrival", "udp-like arrival", "response", "lab: sentinel relayed after hostile batch", "lab: back-to-back ordinary requests all relayed after hostile batch", "lab: garbage TCP connection closed", "lab: connection ending in the middle of a message closed")
 
 	// saved hostile inputs, each as UDP-like and TCP-like arrival, with and without received-support
 	V.Regress(t, func(c regressCase) string {
@@ -827,5 +827,77 @@ func TestC08(t *testing.T) {
 	t.Run("lab", func(t *testing.T) { labRun(t, false) })
 	if os.Getenv("VERIF_BIN") != "" {
 		t.Run("bin", func(t *testing.T) { labRun(t, true) })
+		// The real binary under a descriptor limit of 160: several hundred TCP
+		// peers come and go - saying nothing, a complete request, or half of one -
+		// and the listener must still serve afterwards (a connection the proxy
+		// forgets to close costs a descriptor for good).
+		t.Run("bin-descriptors", func(t *testing.T) {
+			if V.replay && V.only != "bin-descriptors" {
+				return
+			}
+			s, err := newStdSvc(stdVariant{Bin: true, BinEnv: []string{"VERIF_NOFILE=160"}})
+			if err != nil {
+				V.HarnessError(t, "cannot start the binary under a descriptor limit: %v", err)
+			}
+			defer s.in.stopBin()
+			l := s.in.cfg.Listens[0]
+			peers := V.N(450, 3000)
+			if V.replay {
+				peers = 450
+			}
+			for i := 0; i < peers; i++ {
+				c, err := s.in.hub.dialTCP("passing", s.ip(12), l.Addr, l.TCPPort)
+				if err != nil {
+					V.Violation(t, "bin-descriptors", nil, "after %d TCP peers had come and gone the listener refuses connections: %v", i, err)
+					return
+				}
+				id := s.nextID("fd-")
+				full := fmt.Sprintf("OPTIONS sip:svc.test SIP/2.0\r\nVia: SIP/2.0/TCP %s:5060;branch=z9hG4bK%s\r\nFrom: <sip:a@b>;tag=1\r\nTo: <sip:svc@nomatch.example>\r\nCall-ID: %s\r\nCSeq: 1 OPTIONS\r\nContent-Length: 0\r\n\r\n", s.ip(12), id, id)
+				switch i % 3 {
+				case 1:
+					c.send([]byte(full))
+				case 2:
+					c.send([]byte(full[:len(full)/2]))
+				}
+				if i%3 == 1 {
+					time.Sleep(300 * time.Microsecond)
+				}
+				c.close()
+				V.Eval()
+				if d := s.in.binDead(); d != "" {
+					V.Violation(t, "bin-descriptors", nil, "%s (after %d TCP peers)", d, i+1)
+					return
+				}
+			}
+			time.Sleep(300 * time.Millisecond)
+			s.in.hub.drain()
+			// a new peer is served
+			c, err := s.in.hub.dialTCP("sentinel", s.ip(11), l.Addr, l.TCPPort)
+			if err != nil {
+				V.Violation(t, "bin-descriptors", nil, "after %d TCP peers had come and gone the listener refuses connections: %v", peers, err)
+				return
+			}
+			defer c.close()
+			id := s.nextID("fd-sentinel-")
+			wire := []byte(fmt.Sprintf("OPTIONS sip:svc.test SIP/2.0\r\nVia: SIP/2.0/TCP %s:5060;branch=z9hG4bK%s\r\nFrom: <sip:a@b>;tag=1\r\nTo: <sip:svc@nomatch.example>\r\nCall-ID: %s\r\nCSeq: 1 OPTIONS\r\nContent-Length: 0\r\n\r\n", s.ip(11), id, id))
+			s.in.expect(wire)
+			c.send(wire)
+			ok := patientUntil(20*time.Second, time.Millisecond, func() bool {
+				for _, r := range s.in.hub.drain() {
+					if r.msg != nil {
+						if cid, _ := r.msg.First(hCallID); cid == id {
+							return true
+						}
+					}
+				}
+				return false
+			})
+			if !ok {
+				V.Violation(t, "bin-descriptors", map[string]any{"descriptor_limit": 160, "tcp_peers": peers}, "the real binary runs under a descriptor limit of 160; after %d TCP peers had connected, said nothing / one complete request / half of one, and closed, an ordinary request on a new connection is no longer relayed within 20 s: the listener has stopped serving (descriptors of finished connections are not released)\n%s", peers, s.in.binDead())
+				return
+			}
+			V.Class("bin: listener serves after hundreds of short-lived TCP peers under a descriptor limit")
+			V.NonTrivial("bin-descriptors")
+		})
 	}
 }
